@@ -351,7 +351,13 @@ def exception_hierarchy_frames(repo: Repo, reg, prop):
         ok = got is not None and got == bases
         out.append({"oid": f"httpcore._exceptions.{name}:frame:documented_bases", "kind": "frame", "status": "discharged" if ok else "refuted",
                     "witness": None if ok else {"documented_bases": bases, "bases_in_this_tree": got}})
-    extra = sorted(set(have) - set(DOCUMENTED_EXCEPTIONS))
+    def is_exception(name, seen=()):
+        if name in ("Exception", "BaseException") or name in DOCUMENTED_EXCEPTIONS:
+            return True
+        return any(b not in seen and is_exception(b, seen + (name,)) for b in have.get(name, []))
+
+    # only exception classes count: a helper class or a type alias added to the module is none of the callers' business
+    extra = sorted(n for n in set(have) - set(DOCUMENTED_EXCEPTIONS) if is_exception(n))
     out.append({"oid": "httpcore._exceptions:frame:no_undocumented_exception_class", "kind": "frame", "status": "discharged" if not extra else "refuted",
                 "witness": {"classes": extra} if extra else None})
     return out
